@@ -162,14 +162,15 @@ def _cases(draw):
                 'spell': 'native'}
     if src != 'DEC':
         spell = draw(st.sampled_from(['native', 'lower', 'number', 'Text',
-                                      'floatnum']))
+                                      'floatnum', 'npint', 'NumberNp']))
         if spell == 'lower':
             arg = arg.lower()
-        if spell in ('number', 'floatnum') and not (
+        if spell in ('number', 'floatnum', 'npint', 'NumberNp') and not (
                 arg.isdigit() and len(arg) <= 10):
             spell = 'native'
     else:
-        spell = draw(st.sampled_from(['native', 'float', 'Number', 'text']))
+        spell = draw(st.sampled_from(['native', 'float', 'Number', 'text',
+                                      'npint', 'NumberNp']))
     # other KINDS of the same 'places' value: a float, numeric text
     pspell = draw(st.sampled_from(['int', 'int', 'float', 'text']))
     return {'fn': fn, 'arg': arg, 'places': places, 'mode': mode,
@@ -205,6 +206,12 @@ def _spelled(case):
         return int(arg)
     if spell == 'floatnum':
         return float(int(arg))      # the digits as a float: 110.0
+    if spell in ('npint', 'NumberNp'):
+        # the same whole number as a numpy integer scalar (what a cell holds
+        # after numpy arithmetic), bare or wrapped
+        import numpy
+        v = numpy.int64(int(arg))
+        return v if spell == 'npint' else xl.Number(v)
     if spell == 'Text':
         return xl.Text(arg)
     if spell == 'blank':
@@ -213,7 +220,7 @@ def _spelled(case):
 
 
 def observe(fn, arg, places, mode, spell='native'):
-    if mode == 'call':
+    if mode == 'call' or spell in ('npint', 'NumberNp'):
         args = [arg] + ([] if places is None else [places])
         return lib.call_fn(fn, *args)
     if spell in ('float',):
